@@ -387,3 +387,27 @@ Proof.
   - repeat constructor; cbn; intuition.
   - cbn. intros H. discriminate H.
 Qed.
+
+(** the same statements for a fact record whose programs are the expected ones *)
+Lemma var_prog_pure_facts facts : f_var_prog facts = var_prog_expected ->
+  forall p y0 nrm d st st' rg,
+    exec_prog p y0 nrm d (f_var_prog facts) st regs0 = Some (st', rg) -> st' = st.
+Proof. intros ->. exact var_prog_pure. Qed.
+
+Lemma worker_restores_facts facts : f_worker_prog facts = worker_prog_expected ->
+  forall p y0 nrm d st st' rg,
+    NoDup (keys (st_pars st)) -> NoDup (keys (st_inits st)) ->
+    worker facts d nrm y0 p st = Some (st', rg) ->
+    st' = st /\ exists old, get p (st_pars st) = Some old /\ r_old rg = Some old /\
+      r_obs rg =
+        (let i := match y0 with Some y => set_all y (st_inits st) | None => st_inits st end in
+         [mkState (set p (old * (1 + d)) (st_pars st)) i; mkState (set p (old * (1 - d)) (st_pars st)) i]
+         ++ (if nrm then [mkState (st_pars st) i] else [])).
+Proof. unfold worker. intros ->. exact worker_prog_restores. Qed.
+
+Lemma worker_total_facts facts : f_worker_prog facts = worker_prog_expected ->
+  forall p y0 nrm d st old,
+    NoDup (keys (st_pars st)) -> NoDup (keys (st_inits st)) -> get p (st_pars st) = Some old ->
+    (forall y, y0 = Some y -> forallb (fun kv => has (fst kv) (st_inits st)) y = true) ->
+    exists rg, worker facts d nrm y0 p st = Some (st, rg).
+Proof. unfold worker. intros ->. exact worker_prog_total. Qed.
